@@ -8,7 +8,27 @@ use speclib::ast::*;
 use speclib::report::{finish, panic_site, par_cases, Acc, Ctx, Finish, Violation};
 use speclib::scm::reader::Node;
 
-const ALPHA: [char; 14] = ['"', '\\', '~', '%', '(', ')', ';', '#', '\'', '\n', '\u{1}', 'é', ' ', 'a'];
+const ALPHA: [char; 15] = ['"', '\\', '~', '%', '(', ')', ';', '#', '\'', '\n', '\u{1}', 'é', ' ', 'a', '*'];
+
+/// Strings that look like the placeholders a templating step might use: every name under which
+/// the parts of a compiled program are known, in the usual placeholder notations.
+fn dictionary() -> Vec<String> {
+    let names = ["mdt", "policy", "policy_body", "body", "options", "modules", "definitions", "initialization", "init", "terminate", "fini", "device", "path", "io_map", "0", "1", ""];
+    let mut v = vec![];
+    for n in names {
+        for (a, b) in [("{", "}"), ("{{", "}}"), ("${", "}"), ("$", ""), ("%", "%"), ("<", ">"), ("~", ""), ("@", "@")] {
+            v.push(format!("{a}{n}{b}"));
+            v.push(format!("x{a}{n}{b}y"));
+        }
+    }
+    v.push("{:?}".into());
+    v.push("(use-modules (lipe))".into());
+    v.push("%lf3:print:2".into());
+    v.push("#t".into());
+    v.sort();
+    v.dedup();
+    v
+}
 const MARK: &str = "qzq";
 
 #[derive(Clone, Copy, Debug, PartialEq)]
@@ -86,11 +106,19 @@ fn tree(site: Site, s: &str) -> Option<Expr> {
 }
 
 fn char_class(s: &str) -> &'static str {
+    // the characters that matter most for Scheme text first, wherever they stand
     for c in s.chars() {
         match c {
             '"' => return "dquote",
             '\\' => return "backslash",
             '~' => return "tilde",
+            '{' | '$' | '<' | '@' => return "placeholder-like",
+            _ => {}
+        }
+    }
+    for c in s.chars() {
+        match c {
+            '*' => return "glob",
             '%' => return "percent",
             '(' | ')' => return "paren",
             ';' => return "semicolon",
@@ -131,9 +159,13 @@ fn render(site: Site, s: &str) -> Result<Option<Rendered>, String> {
 /// The benign baseline has the same "kind" of string as `s` for the one as-built design choice
 /// that legitimately depends on the content (xattr-match switches primitive on a quote).
 fn baseline_for(site: Site, s: &str) -> String {
+    // glob characters legitimately select another matcher primitive, and for -xattr-match so does
+    // a single quote: the benign string is of the same kind
+    let glob = s.contains(|c| c == '*' || c == '?' || c == '[');
     match site {
         Site::TimeSelector => "Y".into(),
-        Site::XattrMatchName | Site::XattrMatchValue if s.contains('\'') => format!("{MARK}'"),
+        Site::XattrMatchName | Site::XattrMatchValue if s.contains('\'') || glob => format!("{MARK}*"),
+        Site::Name | Site::IName | Site::Path | Site::IPath if glob => format!("{MARK}*"),
         _ => MARK.into(),
     }
 }
@@ -288,6 +320,12 @@ pub fn run(ctx: &Ctx) -> i32 {
             check(site, &s, acc);
         }));
     }
+    let dict = dictionary();
+    acc = acc.merge(par_cases((dict.len() * SITES.len()) as u64, |i, acc| {
+        let site = SITES[(i % SITES.len() as u64) as usize];
+        check(site, &dict[(i / SITES.len() as u64) as usize], acc);
+    }));
+    let dict_len = dict.len();
     finish(
         ctx,
         acc,
@@ -295,10 +333,10 @@ pub fn run(ctx: &Ctx) -> i32 {
             level: "model_checking",
             exhaustive: true,
             rule: "state = (string-carrying site, user string); the tree is built through the public constructors, compiled and rendered; the text is read back by the independent Guile reader: two expected forms, identical skeleton (string literals replaced by holes) to the program for a benign string, the literal at the site decodes to the user string (literal format text: printed verbatim in the runtime model; file names: present in the destination table); distinct = distinct (site, skeleton) pairs".into(),
-            bound: format!("every string of length 1..{n} over {:?} at each of {} sites", ALPHA, SITES.len()),
+            bound: format!("every string of length 1..{n} over {:?}, and each of {dict_len} placeholder-like strings, at each of {} sites", ALPHA, SITES.len()),
             assumptions: vec![
                 "Guile string-literal escapes as documented in the Guile manual (speclib/src/scm/reader.rs); any other backslash escape is a read error".into(),
-                "strings with glob characters are excluded (they legitimately select another matcher)".into(),
+                "a string with a glob character is compared with a benign string that also has one (globs legitimately select another matcher primitive)".into(),
             ],
             extra: serde_json::Map::new(),
         },
